@@ -8,7 +8,7 @@ ID = "C46"
 LEVEL = "fault_enumeration"
 ENGINE = "E2 detgrid"
 TECHNIQUE = ("Hypothesis-generated placements x share damage x server fault plans x delivery/timer schedules (the C03 generator) plus authentic files whose URI "
-             "extension block commits to a wrong ciphertext hash for a drawn segment, followed by concurrent and follow-up reads on the same node; termination is "
+             "extension block commits to a wrong ciphertext hash for a drawn segment, followed by concurrent reads (some of which give up: stopProducing in flight) and follow-up reads on the same node; termination is "
              "decided as a safety property of the closed system: scheduler quiescent (no message, no timer) and a read still unresolved = HANG; a read that keeps "
              "the servers busy beyond a generous message bound = LIVELOCK")
 RULE = ("each case: a C03 scenario (k<=4, N<=6, 1-5 segments, generated placement/damage/faults/schedule); with probability ~1/3 the file is 'authentic but unreadable in "
